@@ -68,6 +68,8 @@ class Candidate:
     def dominates(self, other):
         if self.priority > other.priority:
             return True
+        elif self.priority < other.priority:
+            return False
         elif self.specificity != other.specificity:
             return all(
                 s1 >= s2 for s1, s2 in zip(self.specificity, other.specificity)
@@ -174,26 +176,21 @@ class MultiTypeMap(dict):
             getattr(c.handler, "__code__", None) for c in candidates
         }
 
-        processed = set()
-
         def _pull(candidates):
-            candidates = [c for c in candidates if c.handler not in processed]
-            if not candidates:
-                return
-            rval = [candidates[0]]
-            c1 = candidates[0]
-            for c2 in candidates[1:]:
-                if c1.dominates(c2):
-                    # Candidate 1 dominates candidate 2
-                    continue
-                else:
-                    processed.add(c2.handler)
-                    # Candidate 1 does not dominate candidate 2, so we add it
-                    # to the list.
-                    rval.append(c2)
-            yield rval
-            if len(rval) >= 1:
-                yield from _pull(candidates[1:])
+            # Each rank holds the candidates that no other remaining candidate
+            # dominates, not merely those the first one fails to dominate.
+            while candidates:
+                rval = [
+                    c
+                    for c in candidates
+                    if not any(o.dominates(c) for o in candidates if o is not c)
+                ]
+                if not rval:  # pragma: no cover
+                    rval = list(candidates)
+                yield rval
+                candidates = [
+                    c for c in candidates if not any(c is r for r in rval)
+                ]
 
         return list(_pull(candidates))
 
